@@ -372,6 +372,10 @@ def simulate_process(case, dest):
     stderr = io.StringIO()
     fds = FdTable({0: stdin_tty, 1: tty, 2: False})
     fs = SimFS(lambda p: os.path.abspath(p).startswith("/simfs/"))
+    if case.get("preexisting"):
+        # --output names a file that already exists and is longer than any image
+        fs.files[OUT_PATH] = b"OLD CONTENT " * case["preexisting"]
+    initial_file = fs.files.get(OUT_PATH)
     saved = sys.stdin, sys.stdout, sys.stderr, sys.argv
     status, exc = 0, None
     fs.install()
@@ -395,8 +399,12 @@ def simulate_process(case, dest):
         FdTable.uninstall()
         SimFS.uninstall()
         stdin.detach_text()
+    fbytes = fs.files.get(OUT_PATH)
+    if fbytes == initial_file and not any(
+            e[0] == "open" and any(ch in e[2] for ch in "wax+") for e in fs.log):
+        fbytes = None          # the path was not touched (absent, or an untouched old file)
     return {"status": status, "exc": exc, "stdout": stdout.value(),
-            "stderr": stderr.getvalue(), "file": fs.files.get(OUT_PATH),
+            "stderr": stderr.getvalue(), "file": fbytes,
             "opens": [e for e in fs.log if e[0] == "open"],
             "stdin_consumed": stdin.raw.off, "stdin_eof": stdin.raw.eof_seen,
             "short_reads": stdin.raw.short_reads, "text_reads": stdin.text_reads,
@@ -784,6 +792,8 @@ def generate(rng, tier, opts=None):
     case["dest"] = rng.choice(["pipe", "pipe", "tty", "output", "output"])
     if case["dest"] == "output":
         case["output_stdout_tty"] = rng.random() < 0.5
+    if rng.random() < 0.25:
+        case["preexisting"] = rng.choice([1, 50, 5000])
     case["ascii"] = rng.random() < 0.15
     if rng.random() < 0.1:
         case["max_write"] = rng.choice([1, 7, 100, 4096])
@@ -842,7 +852,7 @@ def minimise(ctx, case, violation):
     data = core.ddmin(data, lambda d: _fails(ctx, dict(case, data=bytes(d).hex()), key),
                       max_tests=150)
     case["data"] = bytes(data).hex()
-    for k, simple in (("stdin_tty", False), ("drawer", None), ("optimize", None), ("level", None), ("ascii", False),
+    for k, simple in (("preexisting", 0), ("stdin_tty", False), ("drawer", None), ("optimize", None), ("level", None), ("ascii", False),
                       ("eq", False), ("max_write", None), ("chunks", [1 << 30]),
                       ("stdin_bufsize", 8192), ("dashdash", False), ("argpos", "last"),
                       ("factory", None), ("output_stdout_tty", False), ("pass_args", True)):
